@@ -235,26 +235,37 @@ fn longlife(a: &Args) {
     let seed = a.u64_or("seed", 1);
     let cycles = a.u64_or("cycles", 140_000);
     let mut cases: Vec<Value> = Vec::new();
-    for m in [1usize, 2, 3, 4, 7, 16] {
-        let mut rng = rng_from(seed, 15_700 + m as u64);
+    // two regimes per size: the written slot rotates / every slot is written in the first cycle and only slot 0 afterwards
+    // (what the other slots and the inner nodes hold then stems from a reset tens of thousands of cycles back)
+    for (m, rotate) in [(1usize, true), (2, true), (3, true), (4, true), (7, true), (16, true), (2, false), (3, false), (4, false), (7, false), (16, false)] {
+        let mut rng = rng_from(seed, 15_700 + m as u64 + if rotate { 0 } else { 100 });
         let r = catch(|| {
             let mut old = VerifMaxTracker::new(m);
             let mut bad: Vec<Value> = Vec::new();
             let mut checks = 0u64;
             for c in 1..=cycles {
-                // only some of the slots are written in a cycle (the others keep whatever an earlier cycle left)
-                let k = (c as usize) % m;
-                old.update(k, rng.random_range(0.0..100.0));
-                if c % 5 == 0 {
-                    old.update((k + 1) % m, rng.random_range(0.0..100.0));
+                if rotate {
+                    let k = (c as usize) % m;
+                    old.update(k, rng.random_range(0.0..100.0));
+                    if c % 5 == 0 {
+                        old.update((k + 1) % m, rng.random_range(0.0..100.0));
+                    }
+                } else if c == 1 {
+                    for k in 0..m {
+                        old.update(k, 10.0 + k as f64);
+                    }
+                } else {
+                    old.update(0, rng.random_range(0.0..100.0));
                 }
                 old.reset();
                 let near = |x: u64| (c % x) < 3 || (c % x) > x - 3;
-                if (near(256) && c < 2000) || near(65536) || c % 9973 == 0 {
+                let at_check = if rotate { (near(256) && c < 2000) || near(65536) || c % 9973 == 0 } else { (c % 65536) < 3 || (c % 65536) > 65533 || (c % 256 < 2 && c < 1000) };
+                if at_check {
                     checks += 1;
                     let (leaves, mx) = observe(&old, m);
                     let fresh_like = leaves.iter().all(|v| *v == f64::MAX) && mx == f64::MAX && old.is_update_possible(1.0e300);
-                    let ups: Vec<(usize, f64)> = (0..(2 * m)).map(|_| (rng.random_range(0..m), rng.random_range(0.0..100.0))).collect();
+                    // (in the fill-once regime the object is only looked at, so that nothing but slot 0 is ever rewritten)
+                    let ups: Vec<(usize, f64)> = if rotate { (0..(2 * m)).map(|_| (rng.random_range(0..m), rng.random_range(0.0..100.0))).collect() } else { Vec::new() };
                     let mut fresh = VerifMaxTracker::new(m);
                     let mut same = true;
                     for (k, v) in &ups {
@@ -274,8 +285,8 @@ fn longlife(a: &Args) {
             (bad, checks)
         });
         match r {
-            Ok((bad, checks)) => cases.push(json!({"m": m, "cycles": cycles, "checks": checks, "bad": bad})),
-            Err(msg) => cases.push(json!({"m": m, "cycles": cycles, "checks": 0, "bad": [], "panic": msg})),
+            Ok((bad, checks)) => cases.push(json!({"m": m, "rotate": rotate, "cycles": cycles, "checks": checks, "bad": bad})),
+            Err(msg) => cases.push(json!({"m": m, "rotate": rotate, "cycles": cycles, "checks": 0, "bad": [], "panic": msg})),
         }
     }
     write_json(&a.str("out"), &json!({"cases": cases}));
